@@ -411,6 +411,7 @@ P = {
   decided={
     "C33.a": "TextXMetaModel.process fills each location field of get_location into the error, guarded by 'is None', and re-raises",
     "C33.b": "by evaluation: the processor dispatch hands metamodel.process the location of the processed object (bound the way process declares its parameters); textxerror_wrap re-raises a TextXError of the processor unchanged (same object, same fields) and wraps other exceptions into a TextXError located at the object",
+    "C33.d": "by evaluation of a resolver round whose scope provider raises a TextXError: the same error propagates; it is located at the reference (line/col by the model's own parser, the model's file) only when it carries no location at all; an error already located (also partially, e.g. inside a model loaded from a string) is left unchanged",
   },
   declined="numeric correctness of the location",
   technique="field-coverage table agreement between get_location and the handler"),
